@@ -378,6 +378,7 @@ func (e *env[T]) mergeFns(ins [][]T, o orderSpec, key string, outVariant int) {
 			}
 		}
 		x.observe("argument integrity", "xsort.MergeSlices")
+
 		if len(ins) == 3 && n >= 5 {
 			x.sample("mergeslices", func() map[string]any {
 				return map[string]any{"fn": "xsort.MergeSlices", "less": o.name, "in (items {key id})": fmt.Sprint(ins), "out": outName, "result": show(got)}
@@ -392,6 +393,8 @@ func (e *env[T]) mergeFns(ins [][]T, o orderSpec, key string, outVariant int) {
 		} else if n > 0 && out != nil {
 			x.observe("mergeslices", "provided out too small")
 		}
+		// the result may live in out (documented) but never in an input
+		independentOf(x, "xsort.MergeSlices", ino, got, gs)
 	}
 }
 
